@@ -179,9 +179,9 @@ def lean_check(ctx, targets=None):
         rc, out = sh(['lake', 'env', 'lean', aud], cwd=LEAN)
         os.unlink(aud)
         seen = {}
-        for m in re.finditer(r"'([^']+)' depends on axioms: \[([^\]]*)\]", out):
+        for m in re.finditer(r"^'(\S+)' depends on axioms: \[([^\]]*)\]", out, re.M):
             seen[m.group(1)] = set(x.strip() for x in m.group(2).replace('\n', ' ').split(',') if x.strip())
-        for m in re.finditer(r"'([^']+)' does not depend on any axioms", out):
+        for m in re.finditer(r"^'(\S+)' does not depend on any axioms", out, re.M):
             seen[m.group(1)] = set()
         axs = set()
         ok_all = True
